@@ -17,6 +17,11 @@ L1 = [dict(vec=False, rg=True)]
 
 def run(ctx):
     if ctx.replay:
+        import json
+        rp = json.load(open(ctx.replay))["replay"]
+        if rp.get("spec") in ("OpCatalog", "NNCatalog"):
+            from .. import cat_common as CC
+            return CC.replay_file(ctx, ctx.replay, {"flags"}, replayer=CC.NN_REPLAYER if rp["spec"] == "NNCatalog" else ("replay_catalog", "CatalogReplayer"))
         return AG.replay_file(ctx, ctx.replay, KINDS)
     rep = core.Report(ctx, "model_checking", assumptions=[
         "one context object is not entered twice concurrently; contexts exit in LIFO order (what `with` guarantees)",
@@ -39,6 +44,14 @@ def run(ctx):
                                            Acts={"leaf", "op", "setrg", "retain", "detach", "ctx", "bw", "zero"}, InitLeaves=L1),
                             simulate="num=%d" % (300 if q else 20000), depth=80, seed=ctx.seed + 5, workers=1)
     AG.replay_all(ctx, rep, mx, table, c, KINDS, label="sim:")
+    # the requires-grad rule of Tape.tla (ResultRG) on every operation, layer and loss of the catalogues, with
+    # gradient tracking on and inside no_grad, for every subset of operands that require grad
+    from .. import cat_common as CC
+    ft = CC.flag_table(rep)
+    cases = [c for c in CC.tensor_cases(ctx, rep, with_grad=False) if c["pol"] == "MUST"]
+    CC.replay(ctx, rep, cases, {"flags"}, rattrs=dict(flagtable=ft, only_flags=True))
+    ncases = [c for c in CC.nn_cases(ctx, rep, with_grad=False) if c["pol"] == "MUST"]
+    CC.replay(ctx, rep, ncases, {"flags"}, replayer=CC.NN_REPLAYER, spec="NNCatalog", rattrs=dict(flagtable=ft, only_flags=True))
     # code -> spec: executions recorded from the real library (random programs over a wide slice of the API)
     # are validated by TLC against the structural specification Tape.tla (TapeTrace.tla)
     from .. import tape_common as TC
